@@ -71,6 +71,25 @@ func (x *Exec) invoke(st *State, fr *Frame, b *ssa.BasicBlock, i int, in ssa.Cal
 		return false
 	}
 	if fnv.K != KFunc || fnv.Fn == nil {
+		// call through a package-level function variable (e.g. whispertool.Now): treated as an
+		// effect-free call with an unconstrained result
+		if u, ok := cc.Value.(*ssa.UnOp); ok {
+			if g, ok := u.X.(*ssa.Global); ok {
+				x.usedExt["call through package variable "+g.Name()+" treated as effect-free"] = true
+				sig := cc.Signature()
+				var r Val
+				switch sig.Results().Len() {
+				case 0:
+					r = Val{K: KTuple}
+				case 1:
+					r = x.freshVal(st, "gv", sig.Results().At(0).Type())
+				default:
+					r = x.freshVal(st, "gv", sig.Results())
+				}
+				setResult(r)
+				return false
+			}
+		}
 		bail("call through a function value that is not statically known (%v)", cc.Value.Type())
 	}
 	callee := fnv.Fn.Fn
